@@ -102,11 +102,29 @@ def _py_json(fs):
         return {"err": type(e).__name__}
 
 
+def twin_formulas(rng, big):
+    """Formulas that contain one binary connective twice with its operands swapped (and n-ary ones with permuted
+    operand lists): what a cache keyed on a normalised or order-insensitive rendering would confuse."""
+    atoms = [1, 2, -1, -2, 3, And([1, 2]), Or([2, 3]), Not(1), And([2, -3]), If(1, 3)]
+    pairs = [(p, q) for p in atoms for q in atoms if repr(p) != repr(q)]
+    if not big:
+        pairs = rng.sample(pairs, 30)
+    wrap = [lambda a, b: And([a, b]), lambda a, b: Or([a, b]), lambda a, b: Iff(a, b), lambda a, b: If(a, b),
+            lambda a, b: Or([Not(a), Not(b), 3]), lambda a, b: And([a, Not(b)])]
+    for p, q in pairs:
+        for mk in (If, Iff, lambda a, b: And([a, b]), lambda a, b: Or([a, b])):
+            a, b = mk(p, q), mk(q, p)
+            for w in (wrap if big else rng.sample(wrap, 2)):
+                yield w(a, b), 4
+
+
 def formulas(ctx):
     rng = ctx.rng
     big = ctx.big()
     for f in small_formulas(2, 3 if big else 2):
         yield f, 3
+    for f, nxt in twin_formulas(rng, big):
+        yield f, nxt
     for _ in range(6000 if big else 500):
         nv = rng.randint(1, 5)
         shared = [] if rng.random() < 0.5 else None
@@ -118,7 +136,8 @@ def corr_logic(ctx, which=("tseitin", "naive", "switching")):
     ctx.rules.append("I1/I2: to_cnf_tseitin / to_cnf_naive / to_cnf_switching / cnf_to_json vs SPModel.Logic, returned formula "
                      "tree, next variable and JSON clause lists compared exactly; exhaustive formulas with "
                      "<= 2-3 connectives over 2 variables + seeded random formulas (depth <= 4-5, <= 5 vars, "
-                     "negative literals, empty And/Or, shared subformulas); non-trivial = has a connective")
+                     "negative literals, empty And/Or, shared subformulas) + 'twin' formulas holding a connective twice with "
+                     "swapped / permuted operands; non-trivial = has a connective")
     for f, nxt in formulas(ctx):
         fj = to_json(f)
         nontriv = not isinstance(f, int)
